@@ -13,7 +13,8 @@ from . import spaces
 ID = "C19"
 
 ENTRY_POINTS = ["solver", "from_permeate", "permeate_composition", "separation_factor", "ideal_curve", "nonideal_curve",
-                "ideal_iso", "ideal_noniso", "nonideal_iso", "nonideal_noniso", "pure_flux", "curve_from_fluxes", "curve_from_csv"]
+                "ideal_iso", "ideal_noniso", "nonideal_iso", "nonideal_noniso", "pure_flux", "curve_from_fluxes", "curve_from_csv",
+                "ideal_curve_empty", "curve_from_fluxes_empty"]  # curves with zero points: the specification is still checked
 MODEL_ENTRY_POINTS = ["solver", "from_permeate", "permeate_composition", "separation_factor", "ideal_curve", "nonideal_curve",
                       "ideal_iso", "ideal_noniso", "nonideal_iso", "nonideal_noniso", "partial_pressures"]
 
@@ -42,6 +43,11 @@ def invoke(ep, mix, model, x, t, tp, pp, steps=2):
     if ep == "ideal_curve":
         return core.call(pv.ideal_diffusion_curve, feed_temperature=t, compositions=[comp, U.Composition(p=min(x + 0.05, 1.0), type="weight")],
                          permeate_temperature=tp, permeate_pressure=pp, calculation_type=model)
+    if ep == "ideal_curve_empty":
+        return core.call(pv.ideal_diffusion_curve, feed_temperature=t, compositions=[], permeate_temperature=tp, permeate_pressure=pp, calculation_type=model)
+    if ep == "curve_from_fluxes_empty":
+        return core.call(U.DiffusionCurve, mixture=mix, membrane_name="M", feed_temperature=t, feed_compositions=[], partial_fluxes=[],
+                         permeate_temperature=tp, permeate_pressure=pp)
     if ep in ("nonideal_curve", "nonideal_iso", "nonideal_noniso"):
         cs = U.make_curve_set(U.get_mixture("S1") if mix.name == "B" else mix, **{k: (tuple(v) if k == "temps" else v) for k, v in spaces.CURVE_CONFIGS["one"].items()})
         if ep == "nonideal_curve":
@@ -229,7 +235,7 @@ def main(tier, seed):
     ts = core.lat([333.15, 353.15], seed)[:1] if q else core.lat([313.15, 333.15, 353.15], seed)
     U.install_fit_memo()
     sp = core.Space("permeate_specification", {"ep": ENTRY_POINTS + ["curve_from_permeances"], "mixture": mixes, "model": ["NRTL", "UNIQUAC"],
-                                               "tp": [False, True], "pp": [False, True], "pp_value": [0.1, 0.0, 0], "x": xs, "T": ts},
+                                               "tp": [False, True], "pp": [False, True], "pp_value": [0.1, 0.0, 0, 250.0, 1e-9], "x": xs, "T": ts},  # 250 kPa: above every saturation pressure (no driving force)
                     lambda c: U.has_model(U.get_mixture(c["mixture"]), c["model"]) and (c["pp"] or c["pp_value"] == 0.1))
     m = core.run_space(rep, sp, judge_modes)
     for ep in ENTRY_POINTS:
